@@ -28,6 +28,7 @@ func init() {
 			{ID: "C12.R10", Text: "streams are opened, and counted, for the assigned vBuckets only: one opener per element of the list VBucketDiscovery.Get returned (same rule as C15.R3)", Run: c15r3},
 			{ID: "C12.R11", Text: "a reopened vBucket keeps being streamed: adopting the branch id a reopen returns never resets or lowers the persistence threshold (same rule as C07.R3)", Run: c07r3},
 			{ID: "C12.R12", Text: "the position a reopen resumes from is the acknowledged event's own: the function stored into ListenerContext.Ack moves the position to the offset of the event it was created for, exactly once (same rule as C04.R10)", Run: ackMoves},
+			{ID: "C12.R13", Text: "a re-open is admitted only while its session lasts: the close ends the session before it closes the streams and empties the position map (same rule as C13.R28)", Run: sessionAdvancedFirst},
 			{ID: "C12.R6", Text: "a reopened vBucket keeps being streamed: the observer that reopen reuses has its delivery/end switches thrown only by Stream.Close (same rule as C03.R6)", Run: switchOwner},
 		},
 	})
@@ -58,9 +59,20 @@ func c12r1(c *Ctx, id string) {
 	causes := append(append([]string{}, transientCauses...), "ErrDCPStreamClosed", "other")
 	reopen := w.Method("stream", "stream", "reopenStream")
 	c.need(reopen != nil, id, "stream.reopenStream")
-	sesd := recv + ".streamEndNotSupportedData"
+	sfName, sfType := w.serialCloseField()
+	sesd := recv + "." + sfName
+	endingF := "ending"
+	if sfType != nil {
+		if ds, ok := sfType.Underlying().(*types.Struct); ok {
+			for j := 0; j < ds.NumFields(); j++ {
+				if b, ok := ds.Field(j).Type().Underlying().(*types.Basic); ok && b.Kind() == types.Bool {
+					endingF = ds.Field(j).Name()
+				}
+			}
+		}
+	}
 	h := &Harness{Fn: fn,
-		Bools:   []string{recv + ".closeWithCancel", ec + ".Err==nil", recv + ".streamFinishedWithCloseCh", sesd + "==nil", sesd + ".ending"},
+		Bools:   []string{recv + ".closeWithCancel", ec + ".Err==nil", recv + ".streamFinishedWithCloseCh", sesd + "==nil", sesd + "." + endingF},
 		Choices: map[string]int{"cause": len(causes)},
 		Groups:  []Group{{Atoms: []string{"result", "#0"}}},
 		Quiet:   quietLog,
@@ -68,7 +80,7 @@ func c12r1(c *Ctx, id string) {
 			if st.B(ec+".Err==nil") && st.C("cause") != len(causes)-1 {
 				return false // a nil error has no class
 			}
-			if st.B(sesd+"==nil") && st.B(sesd+".ending") {
+			if st.B(sesd+"==nil") && st.B(sesd+"."+endingF) {
 				return false
 			}
 			return true
@@ -278,13 +290,26 @@ func c12r3(c *Ctx, id string) {
 	sessionP, sessionF := "", ""
 	if len(ro.Params) == 3 {
 		if bt, ok := ro.Params[2].Type().Underlying().(*types.Basic); ok && bt.Info()&types.IsInteger != 0 {
+			// the comparison may sit in the loop itself or in a small accessor the loop hands its session argument to
+			scan := []*ssa.Function{ro}
 			allInstrs(ro, func(in ssa.Instruction) {
-				if cc := callOf(in); cc != nil && strings.Contains(calleeName(cc), "sync/atomic.") && strings.HasSuffix(calleeName(cc), ".Load") && len(cc.Args) == 1 {
-					if f := fieldOfAddr(cc.Args[0]); f != nil {
-						sessionF = ro.Params[0].Name() + "." + f.Name()
+				if cc := callOf(in); cc != nil && cc.StaticCallee() != nil && cc.StaticCallee() != os && cc.StaticCallee().Blocks != nil && w.inModule(cc.StaticCallee()) {
+					for _, a := range cc.Args {
+						if unwrap(a) == ssa.Value(ro.Params[2]) {
+							scan = append(scan, cc.StaticCallee())
+						}
 					}
 				}
 			})
+			for _, g := range scan {
+				allInstrs(g, func(in ssa.Instruction) {
+					if cc := callOf(in); cc != nil && strings.Contains(calleeName(cc), "sync/atomic.") && strings.HasSuffix(calleeName(cc), ".Load") && len(cc.Args) == 1 {
+						if f := fieldOfAddr(cc.Args[0]); f != nil {
+							sessionF = ro.Params[0].Name() + "." + f.Name()
+						}
+					}
+				})
+			}
 			if sessionF != "" {
 				sessionP = ro.Params[2].Name()
 				groups = []Group{{Atoms: []string{sessionF, sessionP}, EqOnly: true}}
